@@ -241,6 +241,24 @@ func runC11(c *Ctx) {
 			_, sxQ := emitAuth(c, "query-authorize-query", aq)
 			checkLeak("qaq", sxQ)
 		}
+		// limits survive LoadPolicies: the same content brought in through a snapshot made
+		// elsewhere must end, under the limits given at creation, as when it is typed in
+		{
+			al := configLoaded(a)
+			al.Ctor = "for"
+			ref := a
+			ref.Ctor = "for"
+			resRef, _ := emitAuth(c, "load-ref", ref)
+			resL, sxL := emitAuth(c, "load", al)
+			checkLeak("load", sxL)
+			if strings.HasPrefix(resL, "saved ") {
+				c.Count("limits-after-load")
+				if resRef != "environment-timeout" && strings.TrimPrefix(resL, "saved ") != resRef {
+					c.Violate("C11/limits-lost-on-load", "limits given at creation are not honoured after LoadPolicies: typed in -> "+trunc(resRef, 80)+", loaded -> "+trunc(resL, 80),
+						map[string]interface{}{"verb": "AUTHSEQ", "case": sxL, "go": resL, "reference_go": resRef})
+				}
+			}
+		}
 		// the same limits supplied as three separate WithWorldOptions values
 		{
 			as := a
